@@ -89,9 +89,10 @@ def liftOutcome : Outcome Aln → PRes
   | .hang => .hang
 
 def modelParse (fmt : String) (o : POpts) (bs : List Byte) : Option PRes :=
+  -- formats whose model is defined on ALL byte strings (rune decoding modelled: Model/Fmt/Utf8.lean)
+  if fmt == "fasta" then some (liftOutcome (Fasta.parseBytes Gen.FmtFacts.fasta_rejects_empty o bs)) else
   if !allAscii bs then none else
   match fmt with
-  | "fasta" => some (liftOutcome (Fasta.parse Gen.FmtFacts.fasta_rejects_empty o bs))
   | "phylip" =>
     match Phylip.parseOne Gen.FmtFacts.phylip_allocates_from_header o { inp := bs } with
     | .ok (.slow, _) => none      -- allocation of 2^27 … 2^44 entries: machine dependent, not compared
